@@ -14,6 +14,7 @@ dropping) and ALL executor configurations `cfg` (any rejection position).  The l
 -/
 import YaclibModel.Proofs.PipelineLog2
 import YaclibModel.Proofs.PipelineSpec
+import YaclibModel.Proofs.PipelineTerm
 import YaclibModel.Extracted.Kernels
 import YaclibModel.Model.Skeletons
 
@@ -173,25 +174,80 @@ theorem stop_error_routing :
     runsOn .val R.stop = false ∧ runsOn .exc R.stop = false ∧ runsOn .err R.stop = true ∧ runsOn .res R.stop = true :=
   ⟨rfl, rfl, rfl, rfl⟩
 
-/-- **chain_completes_after_reject** — for EVERY rejection position (any `cfg`, i.e. any `limit` on any executor) the
-    chain does not get stuck or crash: whenever the pipeline is suspended, the thing it waits for is an event the client /
-    executor can deliver, and delivering it runs the continuation (`resume`); and the final outcome is `spec`'s, which folds
-    over ALL steps (C02.mech_terminal_eq_spec holds for all `cfg`). -/
+/-- **chain_completes_after_reject** — for EVERY rejection position (any `cfg`, i.e. any `limit` on any executor), from
+    every reachable state: nothing crashes; finitely many deliveries (fulfil the promise the pipeline waits for / let the
+    executor run the queued job — at most `measure` many, Proofs/PipelineTerm.lean) bring the pipeline to rest; and when it
+    rests with a result, that is `spec`'s outcome, which folds over ALL steps behind the rejected one
+    (C02.mech_terminal_eq_spec, `submits_as_spec`). -/
 theorem chain_completes_after_reject (p : Prog) (h : Handle) (hcl : client evs = some (p, h)) (hd : d10FreeProg p = true) :
     (run cfg {} evs).crashed = false ∧
+    (∀ t, (deliverN cfg (run cfg {} evs).measure (run cfg {} evs)).ctl ≠ .pending t) ∧
     (∀ t, (run cfg {} evs).ctl = .pending t →
-      ∃ ev, (ev = (match t.wait with | .promise q _ => Event.set q | .job _ k _ => Event.call k)) ∧
-        mech cfg (run cfg {} evs) ev = settle (run cfg {} evs) (resume cfg t
-          (match t.wait with | .promise _ _ => none | .job _ k _ => some k) (run cfg {} evs).g)) := by
+      (mech cfg (run cfg {} evs) t.delivery).measure < (run cfg {} evs).measure) := by
   have hi := inv_run cfg evs
   rw [hcl] at hi
   obtain ⟨hc, _⟩ := hi hd
-  refine ⟨hc, ?_⟩
-  intro t ht
-  refine ⟨_, rfl, ?_⟩
-  cases hw : t.wait with
-  | promise q f => simp [mech, hc, ht, hw]
-  | job jid k jk => simp [mech, hc, ht, hw]
+  refine ⟨hc, ?_, fun t ht => delivery_decreases cfg _ t hc ht⟩
+  -- the deliveries are client events: the states `deliverN` visits are reachable, hence do not crash
+  have hreach : ∀ (n : Nat) (evs' : List Event), client evs' = some (p, h) →
+      ∃ evs'', client evs'' = some (p, h) ∧ deliverN cfg n (run cfg {} evs') = run cfg {} evs'' := by
+    intro n
+    induction n with
+    | zero => intro evs' hc'; exact ⟨evs', hc', rfl⟩
+    | succ n ih =>
+      intro evs' hc'
+      simp only [deliverN]
+      split
+      · exact ⟨evs', hc', rfl⟩
+      · cases hctl : (run cfg {} evs').ctl with
+        | pending t =>
+          simp only []
+          have hcl2 : client (evs' ++ [t.delivery]) = some (p, h) := by
+            have hfold : ∀ (l : List Event) (ph : Prog × Handle), l.foldl clientEv ph = ph →
+                (l ++ [t.delivery]).foldl clientEv ph = ph := by
+              intro l ph hl
+              rw [List.foldl_append, hl]
+              unfold Thread.delivery
+              cases t.wait <;> cases ph.2 <;> rfl
+            have : ∀ l : List Event, client l = some (p, h) → client (l ++ [t.delivery]) = some (p, h) := by
+              intro l
+              induction l with
+              | nil => intro hl; simp [client] at hl
+              | cons e es ihl =>
+                intro hl
+                cases e with
+                | src s lazy head =>
+                  simp only [client, List.cons_append] at hl ⊢
+                  split at hl
+                  · rename_i hwf; simp only [hwf, ite_true]; exact ihl hl
+                  · rename_i hwf
+                    simp only [hwf, Bool.false_eq_true, ite_false, Option.some.injEq] at hl ⊢
+                    rw [List.foldl_append, hl]
+                    unfold Thread.delivery
+                    cases t.wait <;> cases h <;> rfl
+                | attach s => simp only [client, List.cons_append] at hl ⊢; exact ihl hl
+                | set q => simp only [client, List.cons_append] at hl ⊢; exact ihl hl
+                | call k => simp only [client, List.cons_append] at hl ⊢; exact ihl hl
+                | start k => simp only [client, List.cons_append] at hl ⊢; exact ihl hl
+                | dropFuture => simp only [client, List.cons_append] at hl ⊢; exact ihl hl
+                | get => simp only [client, List.cons_append] at hl ⊢; exact ihl hl
+            exact this evs' hc'
+          have hrun : run cfg {} (evs' ++ [t.delivery]) = mech cfg (run cfg {} evs') t.delivery := by
+            simp [run, List.foldl_append]
+          obtain ⟨evs'', h1, h2⟩ := ih (evs' ++ [t.delivery]) hcl2
+          exact ⟨evs'', h1, by rw [← h2, hrun]⟩
+        | idle => exact ⟨evs', hc', rfl⟩
+        | task src steps => exact ⟨evs', hc', rfl⟩
+        | future r inh => exact ⟨evs', hc', rfl⟩
+        | gone => exact ⟨evs', hc', rfl⟩
+  obtain ⟨evs'', h1, h2⟩ := hreach (run cfg {} evs).measure evs hcl
+  have hnc : (run cfg {} evs'').crashed = false := by
+    have hi2 := inv_run cfg evs''
+    rw [h1] at hi2
+    exact (hi2 hd).1
+  cases comes_to_rest cfg _ (run cfg {} evs) (Nat.le_refl _) with
+  | inl hcr => rw [h2, hnc] at hcr; cases hcr
+  | inr hrest => exact hrest
 
 /-! ### non-vacuity -/
 
